@@ -1,6 +1,8 @@
 """C03 - backtracking leaves no trace, however a query ends."""
 from ..eng import EngineModel
 from .. import rules_bind as rb
+from .. import rules_extra as rx
+from .. import rules_query as rq
 
 
 def check(repo, rep, tier):
@@ -20,3 +22,5 @@ def check(repo, rep, tier):
     rb.rule_manual_advance(em, rep, 'C03.U4')
     rb.rule_no_exhaust_then_yield(em, rep, 'C03.U5')
     rb.rule_no_exception_capture(em, rep, 'C03.U7')
+    rx.rule_no_cached_binding_state(em, rep, 'C03.U6')
+    rq.rule_query_finalised(em, rep, 'C03.U8')
